@@ -40,8 +40,12 @@ class C08Deferred(DeferredBase):
     tags = ('C08',)
     conf_limit = {'quick': 800, 'thorough': 20000}
     models = {'quick': [DeferredBase.models['quick'][0]], 'thorough': DeferredBase.models['thorough'][:2]}
-    programs = {'quick': DeferredBase.programs['quick'][:2] + DeferredBase.programs['quick'][3:],
-                'thorough': DeferredBase.programs['thorough'][:2] + DeferredBase.programs['thorough'][3:6]}
+    # fcopy=1: copies / moves of the user's functor are user-code steps (they must not happen under the internal list lock, where
+    # they would make try_lock_shared* wait for user code)
+    programs = {'quick': DeferredBase.programs['quick'][:2] + DeferredBase.programs['quick'][3:]
+                         + [('0/0/2;2/3;4;3', {'mk': 3, 'help': 1, 'fcopy': 1}, 700, 'stall'), ('0;1/1;0/2/3;4', {'mk': 3, 'help': 1, 'fcopy': 1}, 500, 'stall')],
+                'thorough': DeferredBase.programs['thorough'][:2] + DeferredBase.programs['thorough'][3:6]
+                            + [('0/0/2;2/3;4;3', {'mk': 3, 'help': 1, 'fcopy': 1}, 15000, 'stall'), ('0;1/1;0/2/3;4', {'mk': 3, 'help': 1, 'fcopy': 1}, 10000, 'stall')]}
 
 
 DEF2 = C08Deferred()
